@@ -27,6 +27,50 @@ SEG = "yowsup/layers/noise/layer_noise_segments.py"
 CN = "YowNoiseLayer"
 
 
+
+def noise_roles(repo):
+    """names the noise layer gives to its parts, found by what they are, not by what they are called:
+    proto / stream / queue / lock attributes (by the constructor they are bound from in __init__), the flush function
+    (delivers `<proto>.receive()` upward), the state callback (handed to the protocol's constructor) and the stream
+    event callback (handed to the stream)"""
+    cls = repo.cls(NOISE, CN)
+    init = repo.method(NOISE, CN, "__init__")
+    r = {"proto": None, "stream": None, "queue": None, "lock": None, "flush": None, "state_cb": None, "stream_cb": None}
+    for n in ast.walk(init):
+        if isinstance(n, ast.Assign) and is_self_attr(n.targets[0]) and isinstance(n.value, ast.Call):
+            f = unparse(n.value.func)
+            a = n.targets[0].attr
+            if f.endswith("WANoiseProtocol"):
+                r["proto"] = a
+                for x in list(n.value.args) + [k.value for k in n.value.keywords]:
+                    if is_self_attr(x) and x.attr in cls.methods:
+                        r["state_cb"] = x.attr
+            elif f.endswith("SegmentedStream"):
+                r["stream"] = a
+            elif f.endswith("Queue"):
+                r["queue"] = a
+            elif f.split(".")[-1] in ("Lock", "RLock"):
+                r["lock"] = a
+    for name, fn in cls.methods.items():
+        for c in ast.walk(fn):
+            if isinstance(c, ast.Call) and is_self_attr(c.func, "toUpper") and c.args and r["proto"] and any(
+                    isinstance(x, ast.Call) and isinstance(x.func, ast.Attribute) and x.func.attr == "receive" and is_self_attr(x.func.value, r["proto"]) for x in ast.walk(c.args[0])):
+                r["flush"] = name
+            if isinstance(c, ast.Call) and isinstance(c.func, ast.Attribute) and r["stream"] and is_self_attr(c.func.value, r["stream"]):
+                for x in list(c.args) + [k.value for k in c.keywords]:
+                    if is_self_attr(x) and x.attr in cls.methods:
+                        r["stream_cb"] = x.attr
+    missing = [k for k, v in r.items() if v is None]
+    if missing:
+        from ..repo import AnalysisError
+        raise AnalysisError("noise layer parts not identified: %s" % ", ".join(missing))
+    return r
+
+
+def _const_expr(itp, cls, text):
+    return itp.expr(ast.parse(text, mode="eval").body, {"@module": cls.module, "@owner": cls}, 0)
+
+
 def rule_prologue(ctx):
     repo = ctx.repo
     cls = repo.cls(NOISE, CN)
@@ -113,79 +157,184 @@ def rule_prologue(ctx):
         ctx.violate("C04.prologue", wa, "on_auth", "no path of on_auth sends the prologue")
 
 
+def _mentions(v, needle, depth=0):
+    """does the abstract value tree contain `needle` (a value tuple, or a string label of an fn / ext value)"""
+    if depth > 12 or not isinstance(v, tuple):
+        return False
+    if v == needle:
+        return True
+    if len(v) >= 2 and isinstance(needle, str) and v[0] in ("fn", "ext") and v[1] == needle:
+        return True
+    for x in v[1:]:
+        if isinstance(x, (list, tuple)):
+            for y in (x if isinstance(x, list) else [x]):
+                if _mentions(y, needle, depth + 1):
+                    return True
+    return False
+
+
 def rule_config(ctx):
+    """what a login presents, by abstract execution of on_auth twice on the same layer object (two logins with different
+    profiles and passive flags): the ClientConfig built in each call takes the account from the profile current in THAT
+    call, the passive flag of THAT auth event and the configured push name (the default only when none is configured);
+    the handshake worker of each call is wired with the layer's protocol and stream, the config object built in that
+    call, the client key pair and the stored server key of the current config, and a method of the layer as finish callback"""
     repo = ctx.repo
+    cls = repo.cls(NOISE, CN)
     fn = repo.method(NOISE, CN, "on_auth")
     w = where(NOISE, CN + ".on_auth", fn.lineno)
-    cc = [c for c in ast.walk(fn) if isinstance(c, ast.Call) and unparse(c.func) == "ClientConfig"]
-    if len(cc) != 1:
-        ctx.undecided("C04.config", w, fn, "ClientConfig(...) call not found")
-        return
-    kw = {k.arg: k.value for k in cc[0].keywords}
-    locals_ = {}
-    for n in ast.walk(fn):
-        if isinstance(n, ast.Assign) and isinstance(n.targets[0], ast.Name):
-            locals_.setdefault(n.targets[0].id, []).append(n.value)
+    roles = noise_roles(repo)
+    DEFAULT = alts(Evaluator(repo, cls.module, cls).class_const(cls, "DEFAULT_PUSHNAME"))
+    wk_cls = repo.cls(WORKER, "WANoiseProtocolHandshakeWorker")
 
-    def src(e):
-        if isinstance(e, ast.Name) and len(locals_.get(e.id, [])) == 1:
-            return unparse(locals_[e.id][0])
-        return unparse(e) if e is not None else None
-    u, p, pn = src(kw.get("username")), src(kw.get("passive")), src(kw.get("pushname"))
-    ctx.check("C04.config", u is not None and "self._profile.username" in u, w, "username=" + str(u), "the login must present the profile's account", "username <- profile")
-    ctx.check("C04.config", p is not None and "getArg('passive')" in p.replace('"', "'"), w, "passive=" + str(p), "the login must present the passive flag of the auth event", "passive <- auth event")
-    ctx.check("C04.config", pn is not None and "config.pushname" in pn and "DEFAULT_PUSHNAME" in pn, w, "pushname=" + str(pn), "the login must present the configured push name (default only when unset)", "pushname <- config or default")
-    # the config the worker gets is the object built in THIS call (from this event's passive flag and the current profile),
-    # not one kept from an earlier login
-    holder = [n for n in ast.walk(fn) if isinstance(n, ast.Assign) and any(x is cc[0] for x in ast.walk(n.value))]
-    fresh = len(holder) == 1 and holder[0].value is cc[0] and isinstance(holder[0].targets[0], ast.Name) and len(locals_.get(holder[0].targets[0].id, [])) == 1
-    ctx.check("C04.config", fresh, w, holder[0] if holder else cc[0],
-              "the client description must be built afresh for every login: here it is `%s`, so a later login presents the account / passive flag of an earlier one" % (unparse(holder[0].value)[:60] if holder else "?"),
-              "built in this call")
-    # the worker gets this config, the local key pair and the stored server key
-    wk = [c for c in ast.walk(fn) if isinstance(c, ast.Call) and unparse(c.func) == "WANoiseProtocolHandshakeWorker"]
-    ok = len(wk) == 1 and [unparse(a) for a in wk[0].args][:5] == ["self._wa_noiseprotocol", "self._stream", "client_config", "local_static", "remote_static"] and unparse(wk[0].args[5]) == "self.on_handshake_finished"
-    rs = src(ast.Name(id="remote_static", ctx=ast.Load()))
-    ctx.check("C04.config", bool(ok) and rs is not None and "server_static_public" in rs, w, wk[0] if wk else fn, "the worker must get (protocol, stream, client config, client key pair, stored server key, finish callback)", "worker wired with config, keys and callback")
-    k = repo.cls(WORKER, "WANoiseProtocolHandshakeWorker")
-    run = k.methods["run"]
-    st = [c for c in ast.walk(run) if isinstance(c, ast.Call) and unparse(c.func) == "self._protocol.start"]
-    ok = len(st) == 1 and [unparse(a) for a in st[0].args] == ["self._stream", "self._client_config", "self._s", "self._rs"]
-    init = k.methods["__init__"]
-    ps = params_of(init)
-    assigns = {unparse(n.targets[0]): unparse(n.value) for n in ast.walk(init) if isinstance(n, ast.Assign)}
-    okf = all(assigns.get("self._" + a) == b for a, b in (("protocol", ps[0]), ("stream", ps[1]), ("client_config", ps[2]), ("s", ps[3]), ("rs", ps[4]), ("finish_callback", ps[5])))
-    ctx.check("C04.config", ok and okf, where(WORKER, "WANoiseProtocolHandshakeWorker", None), st[0] if st else run, "the worker must start the protocol with the stream, config, client key pair and server key it was given", "start(stream, config, s, rs) from its own constructor arguments")
+    def run(cell, domains):
+        log = {"configs": [], "workers": [], "tag": None}
+
+        def extcall(itp, label, a, kw, env, d, e):
+            if label.split(".")[-1] == "ClientConfig":
+                v = ("ext", "ClientConfig#%d" % len(log["configs"]), [])
+                log["configs"].append((v, dict(kw), list(a), log["tag"]))
+                return v
+            return None
+
+        def construct(itp, c, a, kw, env, d, e):
+            if c is wk_cls:
+                v = ("ext", "worker#%d" % len(log["workers"]), [])
+                log["workers"].append((v, list(a), dict(kw), log["tag"]))
+                return v
+            return None
+        hooks = {"extcall": extcall, "construct": construct, "classmethod:getCurrent": lambda itp, c, a, k, env, d, e: ("ext", "env", [])}
+        runner = LayerRunner(repo, {})
+        hk = runner.hooks()
+        hk.update(hooks)
+        gp0 = hk["method:getProp"]
+
+        def getprop(itp, recv, a, kw, env, d, e):
+            if a and a[0] == ("c", "profile"):
+                return ("ext", "profile" + log["tag"], [])
+            return gp0(itp, recv, a, kw, env, d, e)
+        hk["method:getProp"] = getprop
+        it = Interp(repo, cell, domains, hooks=hk)
+        it.layer_base = runner.base
+        layer = runner.make_layer(it, cls)
+        proto = Obj(None)
+        proto.fields["state"] = _const_expr(it, cls, "WANoiseProtocol.STATE_INIT")
+        layer[1].fields[roles["proto"]] = ("obj", proto)
+        layer[1].fields[roles["stream"]] = ("ext", "stream", [])
+        res = {"raised": None, "log": log, "layer": layer, "proto": ("obj", proto)}
+        for tag in ("A", "B"):
+            evo = _event_obj(repo)
+            evo.fields["args"] = ("dict", {"passive": ("fn", "passive" + tag, [])})
+            log["tag"] = tag
+            try:
+                it.method_call(layer, "on_auth", [("obj", evo)], {}, {"@module": cls.module, "@owner": cls}, 0, None)
+            except _Raise as r:
+                res["raised"] = r.text
+                break
+        return res, it
+    try:
+        cells = enumerate_cells(run, {}, max_cells=600)
+    except Budget:
+        ctx.undecided("C04.config", w, fn, "budget exceeded")
+        return
+    n = 0
+    probs = {"username": [], "passive": [], "pushname": [], "fresh": [], "worker": []}
+    for cell, r in cells:
+        cfgs, wks = r["log"]["configs"], r["log"]["workers"]
+        if r["raised"] or len(wks) != 2:
+            continue                      # a path that does not start two handshakes (no key pair ...): nothing presented
+        n += 1
+        for i, tag in enumerate(("A", "B")):
+            mine_c = [x for x in cfgs if x[3] == tag]
+            if len(mine_c) != 1:
+                got = [x for x in wks if x[3] == tag]
+                probs["fresh"].append("login %s builds %d client description(s); its worker gets %s" % (tag, len(mine_c), show(got[0][1][2])[:40] if got and len(got[0][1]) > 2 else "?"))
+                continue
+            v, kw, pos, _t = mine_c[0]
+            prof = "profile" + tag
+            other = "profile" + ("B" if tag == "A" else "A")
+            u = kw.get("username")
+            if u is None or not (_mentions(u, ".username") and _mentions(u, prof)) or _mentions(u, other):
+                probs["username"].append("login %s presents username %s" % (tag, show(u)[:60] if u else None))
+            pv = kw.get("passive")
+            if pv != ("fn", "passive" + tag, []):
+                probs["passive"].append("login %s presents passive=%s" % (tag, show(pv)[:40] if pv else None))
+            pn = kw.get("pushname")
+            okpn = pn is not None and ((_mentions(pn, ".pushname") and _mentions(pn, prof)) or (DEFAULT and pn == ("c", DEFAULT[0])))
+            if not okpn:
+                probs["pushname"].append("login %s presents pushname %s" % (tag, show(pn)[:50] if pn else None))
+            mine = [x for x in wks if x[3] == tag]
+            if len(mine) == 1:
+                wv, a, wkw, _t = mine[0]
+                ok = len(a) >= 5 and a[0] == r["proto"] and a[1][:2] == ("ext", "stream") and a[2] is v \
+                    and _mentions(a[3], ".client_static_keypair") and _mentions(a[3], prof) \
+                    and _mentions(a[4], ".server_static_public") and _mentions(a[4], prof)
+                cb = a[5] if len(a) > 5 else wkw.get("finish_callback")
+                ok = ok and cb is not None and cb[0] == "bound" and cb[1][0] == "obj" and cb[1][1] is r["layer"][1]
+                if not ok:
+                    if len(a) >= 3 and a[2] is not v:
+                        probs["fresh"].append("the worker of login %s gets %s, not the client description built in that call" % (tag, show(a[2])[:40]))
+                    else:
+                        probs["worker"].append("worker of login %s is built with (%s)" % (tag, ", ".join(show(x)[:24] for x in a)))
+            else:
+                probs["worker"].append("login %s starts no handshake worker" % tag)
+    if not n:
+        ctx.undecided("C04.config", w, fn, "no path of on_auth starts a handshake in two consecutive logins (%d path classes)" % len(cells))
+        return
+    ctx.check("C04.config", not probs["username"], w, "username <- the current profile", "the login must present the profile's account: " + "; ".join(sorted(set(probs["username"]))[:2]), "username <- profile (%d path classes, two logins each)" % n)
+    ctx.check("C04.config", not probs["passive"], w, "passive <- this auth event", "the login must present the passive flag of the auth event: " + "; ".join(sorted(set(probs["passive"]))[:2]), "passive <- auth event")
+    ctx.check("C04.config", not probs["pushname"], w, "pushname <- config or default", "the login must present the configured push name (default only when unset): " + "; ".join(sorted(set(probs["pushname"]))[:2]), "pushname <- config or default")
+    ctx.check("C04.config", not probs["fresh"], w, "client description built in this call",
+              "the client description must be built afresh for every login: " + "; ".join(sorted(set(probs["fresh"]))[:2]) + " - a later login presents the account / passive flag of an earlier one", "built in this call")
+    ctx.check("C04.config", not probs["worker"], w, "worker wiring", "the worker must get (protocol, stream, client config, client key pair, stored server key, finish callback): " + "; ".join(sorted(set(probs["worker"]))[:2]), "worker wired with config, keys and callback")
 
 
 def rule_finish(ctx):
+    """the worker reports the outcome exactly once on every path - by abstract execution of its run() with the protocol
+    opaque: start() returning normally -> callback(None); start() raising HandshakeFailedException -> callback(that
+    exception); no callback configured -> nothing is called, nothing raised"""
     repo = ctx.repo
     k = repo.cls(WORKER, "WANoiseProtocolHandshakeWorker")
     run = k.methods["run"]
-    g = CFG(run)
     w = where(WORKER, "WANoiseProtocolHandshakeWorker.run", run.lineno)
-    calls = [n for n in g.live if any(isinstance(x, ast.Call) and unparse(x.func) == "self._finish_callback" for e in node_exprs(n) for x in walk_no_nested(e))]
-    guards = [n for n in g.live if n.kind == "test" and "_finish_callback" in unparse(n.stmt.test)]
-    ok = False
-    p = None
-    if len(calls) == 1:
-        # every normal path reaches the call unless the callback is None
-        avoid = calls
-        p = g.path(g.entry, lambda x: x is g.exit, avoid=avoid, edge_ok=lambda a, b, kk: not (a in guards and kk == "true") and kk != "exc" or (kk == "exc" and b.kind == "dispatch"))
-        reach_via_handler = any(n.kind == "handler" and "HandshakeFailedException" in unparse(n.stmt.type) for n in g.live)
-        # path through the failure handler reaches the call too
-        hn = [n for n in g.live if n.kind == "handler"]
-        ok_h = all(g.path(h, lambda x: x is calls[0]) is not None for h in hn)
-        only_none = p is None or all(True for _ in [0])
-        # a path that skips the call must go through the `is not None` guard's false edge
-        p2 = g.path(g.entry, lambda x: x is g.exit, avoid=calls, edge_ok=lambda a, b, kk: not (a in guards))
-        ok = reach_via_handler and ok_h and p2 is None
-        p = p2
-    ctx.check("C04.finish", ok, w, calls[0].stmt if calls else run, "a path through run() ends without the finish callback: " + fmt_path(p) + " (the login would hang)", "finish callback reached on the success and the failed-handshake path")
-    # the error handed over is the caught exception
-    errs = [n for n in ast.walk(run) if isinstance(n, ast.ExceptHandler) and n.name]
-    okarg = len(errs) == 1 and any(isinstance(s, ast.Assign) and unparse(s.value) == errs[0].name for s in errs[0].body) and calls and "error" in unparse(calls[0].stmt)
-    ctx.check("C04.finish", bool(okarg), w, "callback argument", "the callback must receive the caught handshake error (None on success)", "callback(error or None)")
+    FAIL = ("ext", "HandshakeFailedException", [])
+
+    def attempt(fails, with_cb=True):
+        got = []
+
+        def start(itp, recv, a, kw, env, d, e):
+            if fails:
+                raise _Raise(FAIL, "HandshakeFailedException")
+            return C_NONE
+
+        def record(itp, e, args, kwargs, env, depth):
+            got.append(args[0] if args else None)
+            return C_NONE
+        it = Interp(repo, {}, {}, hooks={"ext:protocol.start": start, "builtin:__finished__": record})
+        o = Obj(k)
+        lam = ast.parse("lambda error: __finished__(error)", mode="eval").body
+        cb = ("closure", lam, {"@module": k.module, "@owner": None}, None, None) if with_cb else C_NONE
+        raised = None
+        try:
+            kk, init = repo.find_method(k, "__init__")
+            it.call_function(init, kk, ("obj", o), [("ext", "protocol", []), ("ext", "stream", []), ("ext", "config", []), ("ext", "s", []), ("ext", "rs", []), cb], {}, depth=0)
+            it.call_function(run, k, ("obj", o), [], {}, depth=0)
+        except _Raise as r:
+            raised = r.text
+        starts = [e for e in flat_effects(it.effects) if e[0] == "CALL" and e[1] == "protocol.start"]
+        return got, raised, starts
+    ok_s, r_s, st_s = attempt(False)
+    ok_f, r_f, st_f = attempt(True)
+    ok_n, r_n, st_n = attempt(True, with_cb=False)
+    good = ok_s == [C_NONE] and r_s is None and len(ok_f) == 1 and r_f is None and r_n is None and not ok_n
+    ctx.check("C04.finish", good, w, "finish callback on the success and the failed-handshake path",
+              "a path through run() ends without the finish callback (the login would hang), or calls it more than once: success -> %d call(s)%s, failed handshake -> %d call(s)%s" % (len(ok_s), " raising " + r_s if r_s else "", len(ok_f), " raising " + r_f if r_f else ""),
+              "finish callback reached once on the success and the failed-handshake path")
+    ctx.check("C04.finish", ok_s == [C_NONE] and ok_f == [FAIL], w, "callback argument", "the callback must receive the caught handshake error (None on success); got %s / %s" % ([show(x) for x in ok_s], [show(x) for x in ok_f]), "callback(error or None)")
+    want = [("ext", "stream", []), ("ext", "config", []), ("ext", "s", []), ("ext", "rs", [])]
+    ctx.check("C04.config", len(st_s) == 1 and list(st_s[0][2]) == want, where(WORKER, "WANoiseProtocolHandshakeWorker", None), "protocol.start(stream, config, s, rs)",
+              "the worker must start the protocol with the stream, config, client key pair and server key it was given; it passes %s" % ([show(x) for x in st_s[0][2]] if st_s else "nothing"),
+              "start(stream, config, s, rs) from its own constructor arguments")
     # on_handshake_finished(e): event + failure stanza up when e is set, nothing otherwise
     cls = repo.cls(NOISE, CN)
     EVF = alts(Evaluator(repo, cls.module, cls).class_const(cls, "EVENT_HANDSHAKE_FAILED"))[0]
@@ -218,66 +367,154 @@ def _deps_text(v, depth=0):
     return out
 
 
-def rule_rs(ctx):
-    repo = ctx.repo
-    fn = repo.method(NOISE, CN, "_on_protocol_state_changed")
-    g = CFG(fn)
-    w = where(NOISE, CN + "._on_protocol_state_changed", fn.lineno)
+def _noise_layer(repo, roles, cell=None, domains=None, state=None, rs=None, known_rs=None, extra_hooks=None):
+    """the noise layer with its protocol a plain object {state, rs}, stream / queue / profile opaque; calls of the flush
+    function are recorded as ('CALL', 'flush') and not executed (unless asked)"""
+    cls = repo.cls(NOISE, CN)
+    runner = LayerRunner(repo, {})
+    hk = runner.hooks()
 
-    def nodes_calling(text):
-        return [n for n in g.live if any(isinstance(x, ast.Call) and unparse(x.func) == text for e in node_exprs(n) for x in walk_no_nested(e))]
-    flush = nodes_calling("self._flush_incoming_buffer")
-    write = nodes_calling("self._profile.write_config")
-    tests = [n for n in g.live if n.kind == "test" and "_rs" in unparse(n.stmt.test) and ".rs" in unparse(n.stmt.test)]
-    if len(flush) != 1 or len(write) != 1 or len(tests) != 1:
-        ctx.violate("C04.rs", w, fn, "expected one key comparison, one write_config and one flush in the state callback (found %d/%d/%d)" % (len(tests), len(write), len(flush)))
-        return
-    t = tests[0]
-    neq = isinstance(t.stmt.test, ast.Compare) and isinstance(t.stmt.test.ops[0], ast.NotEq)
-    edge = "true" if neq else "false"
-    skip = g.path(t, lambda x: x is flush[0], avoid=write, edge_ok=lambda a, b, k: not (a is t and k != edge))
-    ctx.check("C04.rs", skip is None and g.dominates(t, flush[0]), w, write[0].stmt, "when the server key changed, frames are flushed before (or without) the new key being written: " + fmt_path(skip), "changed server key written before the flush")
-    stores = [n for n in g.live if n.kind == "stmt" and isinstance(n.stmt, ast.Assign) and unparse(n.stmt.targets[0]).endswith(".server_static_public") and "_wa_noiseprotocol.rs" in unparse(n.stmt.value)]
-    ctx.check("C04.rs", len(stores) == 1 and g.dominates(stores[0], write[0]), w, stores[0].stmt if stores else fn, "the new server key must be put into the config that is written", "config updated with the new key, then written")
-    st = [n for n in g.live if n.kind == "test" and "STATE_TRANSPORT" in unparse(n.stmt.test)]
-    ctx.check("C04.rs", len(st) == 1 and g.dominates(st[0], flush[0]), w, st[0].stmt if st else fn, "buffered frames may only be flushed once the transport state is reached", "flush only in transport state")
+    def flush(itp, fn, owner, self_val, a, kw):
+        itp.emit("CALL", "flush", [])
+        return C_NONE
+    hk["fn:" + roles["flush"]] = flush
+    hk.update(extra_hooks or {})
+    it = Interp(repo, cell if cell is not None else {}, domains if domains is not None else {}, hooks=hk)
+    it.layer_base = runner.base
+    layer = runner.make_layer(it, cls)
+    proto = Obj(None)
+    proto.fields["state"] = _const_expr(it, cls, "WANoiseProtocol." + (state or "STATE_TRANSPORT"))
+    proto.fields["rs"] = rs if rs is not None else ("ext", "KEY_NEW", [])
+    proto.fields["@trace_reads"] = C_NONE
+    layer[1].fields[roles["proto"]] = ("obj", proto)
+    layer[1].fields[roles["stream"]] = ("ext", "stream", [])
+    layer[1].fields[roles["queue"]] = ("ext", "inq", [])
+    layer[1].fields["_profile"] = ("ext", "profile", [])
+    if known_rs is not None:
+        layer[1].fields["_rs"] = known_rs
+    it.effects[:] = []
+    return it, layer, cls
+
+
+def rule_rs(ctx):
+    """the protocol's state callback, abstractly executed: on reaching transport state with a server key that differs
+    from the one the layer knows, the new key is put into the profile's config and the config is written BEFORE the
+    buffered frames are flushed; with the same key nothing is written; in every case the flush happens, and only in
+    transport state"""
+    repo = ctx.repo
+    roles = noise_roles(repo)
+    fn = repo.method(NOISE, CN, roles["state_cb"])
+    w = where(NOISE, CN + "." + roles["state_cb"], fn.lineno)
+    NEW, OLD = ("ext", "KEY_NEW", []), ("ext", "KEY_OLD", [])
+
+    def run(known, state="STATE_TRANSPORT"):
+        it, layer, cls = _noise_layer(repo, roles, state=state, rs=NEW, known_rs=known)
+        raised = None
+        try:
+            it.method_call(layer, roles["state_cb"], [_const_expr(it, cls, "WANoiseProtocol." + state)], {}, {"@module": cls.module, "@owner": cls}, 0, None)
+        except _Raise as r:
+            raised = r.text
+        seq = []
+        for e in flat_effects(it.effects):
+            if e[0] == "CALL" and e[1] == "flush":
+                seq.append(("flush",))
+            elif e[0] == "CALL" and e[1].endswith(".write_config"):
+                seq.append(("write", list(e[2])))
+            elif e[0] == "SETATTR" and e[2] == "server_static_public":
+                seq.append(("set", e[1], e[3]))
+        return seq, raised, layer
+    changed, r1, l1 = run(OLD)
+    same, r2, l2 = run(NEW)
+    first, r3, l3 = run(C_NONE)
+    early, r4, l4 = run(OLD, state="STATE_HANDSHAKE")
+    kinds = [x[0] for x in changed]
+    ok_order = kinds.count("write") == 1 and kinds.count("flush") == 1 and kinds.index("write") < kinds.index("flush") and not r1
+    ctx.check("C04.rs", ok_order, w, "changed server key: write_config before the flush", "when the server key changed, frames are flushed before (or without) the new key being written: observed %s" % (kinds,), "changed server key written before the flush")
+    sets = [x for x in changed if x[0] == "set"]
+    wr = [x for x in changed if x[0] == "write"]
+    ok_cfg = len(sets) == 1 and sets[0][2] == NEW and wr and wr[0][1] and wr[0][1][0] == sets[0][1] and "set" in kinds and kinds.index("set") < kinds.index("write") \
+        and l1[1].fields.get("_rs") == NEW
+    ctx.check("C04.rs", bool(ok_cfg), w, "config updated with the new key, then written", "the new server key must be put into the config that is written (and remembered by the layer)", "config updated with the new key, then written")
+    k2, k3, k4 = [x[0] for x in same], [x[0] for x in first], [x[0] for x in early]
+    ok_rest = k2 == ["flush"] and k3.count("flush") == 1 and k3.count("write") == 1 and "flush" not in k4 and not (r2 or r3 or r4)
+    ctx.check("C04.rs", ok_rest, w, "flush only in transport state; unchanged key not rewritten",
+              "buffered frames may only be flushed once the transport state is reached, and exactly once per transition (same key: %s, first key: %s, handshake state: %s)" % (k2, k3, k4), "flush only in transport state")
 
 
 def rule_flush(ctx):
+    """receive, the flush function and the stream callbacks of the noise layer (parts found by role, see noise_roles)"""
     repo = ctx.repo
+    roles = noise_roles(repo)
+    cls = repo.cls(NOISE, CN)
     fn = repo.method(NOISE, CN, "receive")
-    g = CFG(fn)
     w = where(NOISE, CN + ".receive", fn.lineno)
-    puts = [n for n in g.live if any(isinstance(x, ast.Call) and unparse(x.func) == "self._incoming_segments_queue.put" for e in node_exprs(n) for x in walk_no_nested(e))]
-    tests = [n for n in g.live if n.kind == "test" and "_in_handshake" in unparse(n.stmt.test)]
-    flush = [n for n in g.live if any(isinstance(x, ast.Call) and unparse(x.func) == "self._flush_incoming_buffer" for e in node_exprs(n) for x in walk_no_nested(e))]
-    ok = len(puts) == 1 and len(tests) == 1 and len(flush) == 1 and g.dominates(puts[0], tests[0]) and g.dominates(tests[0], flush[0])
-    ctx.check("C04.flush", ok, w, puts[0].stmt if puts else fn, "a received segment must be enqueued before the handshake state is tested (a frame arriving while the handshake completes would be lost or reordered)", "enqueue, then test the state, then flush")
-    # direct delivery that bypasses the queue is not allowed
-    direct = [n for n in g.live if any(isinstance(x, ast.Call) and is_self_attr(x.func, "toUpper") for e in node_exprs(n) for x in walk_no_nested(e))]
-    ctx.check("C04.flush", not direct, w, "no delivery bypasses the queue", "receive delivers a frame without going through the ordered queue", "all deliveries go through the queue")
-    ff = repo.method(NOISE, CN, "_flush_incoming_buffer")
+    # receive, abstractly executed in handshake and in transport state: the segment is put into the queue first; the queue
+    # is flushed only in transport state; nothing is delivered directly
+    outs = {}
+    for state in ("STATE_HANDSHAKE", "STATE_TRANSPORT"):
+        it, layer, _c = _noise_layer(repo, roles, state=state)
+        raised = None
+        try:
+            it.method_call(layer, "receive", [("ext", "SEGMENT", [])], {}, {"@module": cls.module, "@owner": cls}, 0, None)
+        except _Raise as r:
+            raised = r.text
+        seq = []
+        for e in flat_effects(it.effects):
+            if e[0] == "CALL" and e[1] in ("inq.put", "inq.put_nowait"):
+                seq.append("put" if e[2] and e[2][0] == ("ext", "SEGMENT", []) else "put?")
+            elif e[0] == "CALL" and e[1] == "flush":
+                seq.append("flush")
+            elif e[0] == "UP":
+                seq.append("up")
+            elif e[0] == "GETATTR" and e[2] == "state" and "state?" not in seq:
+                seq.append("state?")
+        outs[state] = (seq, raised)
+    ok = outs["STATE_HANDSHAKE"] == (["put", "state?"], None) and outs["STATE_TRANSPORT"] == (["put", "state?", "flush"], None)
+    ctx.check("C04.flush", ok, w, "enqueue, then test the state, then flush",
+              "a received segment must be enqueued before the handshake state is tested (a frame arriving while the handshake completes would be lost or reordered): during the handshake %s, in transport state %s" % (outs["STATE_HANDSHAKE"], outs["STATE_TRANSPORT"]),
+              "enqueue, then test the state, then flush")
+    ctx.check("C04.flush", "up" not in outs["STATE_HANDSHAKE"][0] + outs["STATE_TRANSPORT"][0], w, "no delivery bypasses the queue", "receive delivers a frame without going through the ordered queue", "all deliveries go through the queue")
+    # the flush function: the whole drain loop runs under the layer's flush lock; every drained segment is decrypted by
+    # the protocol and delivered
+    ff = repo.method(NOISE, CN, roles["flush"])
+    wf = where(NOISE, CN + "." + roles["flush"], ff.lineno)
     gf = CFG(ff)
-    acq = [n for n in gf.live if "_flush_lock.acquire" in (unparse(n.stmt) if n.stmt is not None and n.kind == "stmt" else "") or (n.kind == "with_enter" and "_flush_lock" in unparse(n.stmt.items[0].context_expr))]
+    L = roles["lock"]
+    acq = [n for n in gf.live if (n.kind == "stmt" and n.stmt is not None and unparse(n.stmt) == "self.%s.acquire()" % L) or (n.kind == "with_enter" and any(is_self_attr(i.context_expr, L) for i in n.stmt.items))]
     loops = [n for n in gf.live if n.kind == "test" and isinstance(n.stmt, ast.While)]
     ups = [n for n in gf.live if any(isinstance(x, ast.Call) and is_self_attr(x.func, "toUpper") for e in node_exprs(n) for x in walk_no_nested(e))]
-    ok = len(acq) >= 1 and len(loops) == 1 and len(ups) == 1 and gf.dominates(acq[0], loops[0]) and "qsize" in unparse(loops[0].stmt.test)
-    ctx.check("C04.flush", ok, where(NOISE, CN + "._flush_incoming_buffer", ff.lineno), "drain loop under _flush_lock", "the whole drain loop must run under one lock (two flushers would interleave frames)", "lock taken before the drain loop")
-    dec = "_wa_noiseprotocol.receive()" in unparse(ups[0].stmt) if ups else False
-    ctx.check("C04.flush", dec, where(NOISE, CN + "._flush_incoming_buffer", ff.lineno), ups[0].stmt if ups else ff, "each drained segment must be decrypted by the protocol and delivered", "decrypt and deliver per segment")
+    reads_queue = bool(loops) and any(is_self_attr(x, roles["queue"]) for x in ast.walk(loops[0].stmt.test))
+    ok = len(acq) >= 1 and len(loops) == 1 and len(ups) == 1 and gf.dominates(acq[0], loops[0]) and reads_queue
+    ctx.check("C04.flush", ok, wf, "drain loop under the flush lock", "the whole drain loop must run under one lock (two flushers would interleave frames)", "lock taken before the drain loop")
+    dec = bool(ups) and any(isinstance(x, ast.Call) and isinstance(x.func, ast.Attribute) and x.func.attr == "receive" and is_self_attr(x.func.value, roles["proto"]) for x in ast.walk(ups[0].stmt))
+    ctx.check("C04.flush", dec, wf, ups[0].stmt if ups else ff, "each drained segment must be decrypted by the protocol and delivered", "decrypt and deliver per segment")
     # both flush sites use the same function
     sites = []
-    cls = repo.cls(NOISE, CN)
     for name, f in cls.methods.items():
         for c in ast.walk(f):
-            if isinstance(c, ast.Call) and is_self_attr(c.func, "_flush_incoming_buffer"):
+            if isinstance(c, ast.Call) and is_self_attr(c.func, roles["flush"]):
                 sites.append(name)
-    ctx.check("C04.flush", sorted(sites) == ["_on_protocol_state_changed", "receive"], where(NOISE, CN, None), "flush sites %s" % sorted(sites), "frames must be flushed on arrival (after the handshake) and when the transport state is reached, through the same function", "two sites, one function")
-    # disconnect resets the protocol; the read side of the stream is fed from the queue
-    hs = repo.method(NOISE, CN, "_handle_stream_event")
-    src = unparse(hs)
-    ok = "put_read_segment(self._incoming_segments_queue.get(" in src and "self.toLower(self._stream.get_write_segment())" in src
-    ctx.check("C04.flush", ok, where(NOISE, CN + "._handle_stream_event", hs.lineno), "stream events", "handshake writes must go down through toLower and reads must come from the segment queue", "write -> toLower, read <- queue")
+    ctx.check("C04.flush", sorted(set(sites)) == sorted({roles["state_cb"], "receive"}), where(NOISE, CN, None), "flush sites %s" % sorted(sites), "frames must be flushed on arrival (after the handshake) and when the transport state is reached, through the same function", "two sites, one function")
+    # the stream's callback: a WRITE event sends the stream's segment down, a READ event feeds the stream from the queue
+    hs = repo.method(NOISE, CN, roles["stream_cb"])
+    whs = where(NOISE, CN + "." + roles["stream_cb"], hs.lineno)
+    seen = {}
+    for evname in ("EVENT_WRITE", "EVENT_READ"):
+        it, layer, _c = _noise_layer(repo, roles)
+        raised = None
+        try:
+            it.method_call(layer, roles["stream_cb"], [_const_expr(it, cls, "BlockingQueueSegmentedStream." + evname)], {}, {"@module": cls.module, "@owner": cls}, 0, None)
+        except _Raise as r:
+            raised = r.text
+        effs = list(flat_effects(it.effects))
+        seen[evname] = (effs, raised)
+    we, wr_ = seen["EVENT_WRITE"]
+    re_, rr = seen["EVENT_READ"]
+    dn = [e for e in we if e[0] == "DOWN"]
+    okw = not wr_ and len(dn) == 1 and _mentions(dn[0][1], "get_write_segment") and not [e for e in we if e[0] == "CALL" and e[1].startswith("inq.")]
+    feeds = [e for e in re_ if e[0] == "CALL" and e[1] == "stream.put_read_segment"]
+    okr = not rr and len(feeds) == 1 and feeds[0][2] and _mentions(feeds[0][2][0], "get") and _mentions(feeds[0][2][0], "inq") and not [e for e in re_ if e[0] == "DOWN"]
+    ctx.check("C04.flush", okw and okr, whs, "stream events", "handshake writes must go down through toLower and reads must come from the segment queue", "write -> toLower, read <- queue")
 
 
 def rule_attempt(ctx):
